@@ -1226,7 +1226,7 @@ def _recreate_style(content, dfxp):
             dfxp_style['style'] = content['class']
     if 'text-align' in content:
         dfxp_style['tts:textAlign'] = content['text-align']
-    if 'italics' in content:
+    if content.get('italics'):
         dfxp_style['tts:fontStyle'] = 'italic'
     if 'font-family' in content:
         dfxp_style['tts:fontFamily'] = content['font-family']
